@@ -18,5 +18,6 @@ Definition gen_cfg : cfg :=
         (last (points_of "transport.call" gen_transport_blocking) [])
         (nth 0 (points_of "transport.handleMessage" gen_transport_blocking) [])
         (nth 1 (points_of "transport.handleMessage" gen_transport_blocking) [])
+        (last (points_of "connMailBox.receive" gen_transport_blocking) [])
         (cap_of "calls") (cap_of "pendingFetch").
 
